@@ -17,7 +17,9 @@ package badger
 
 import (
 	"bytes"
+	"encoding/binary"
 	"fmt"
+	"io"
 	"os"
 	"runtime"
 	"sort"
@@ -25,7 +27,9 @@ import (
 	"testing/synctest"
 	"time"
 
+	"github.com/dgraph-io/badger/v4/pb"
 	"github.com/dgraph-io/badger/v4/vshim/sched"
+	"google.golang.org/protobuf/proto"
 )
 
 type c24Vis struct {
@@ -523,6 +527,64 @@ func c24Run(e *enumCtx, nvk int, seq []string) (string, string) {
 	}
 	if c, d := check("chain", chain, false); c != "" {
 		return c, d
+	}
+	// the same full backup restored through the KVLoader interface (what Load uses internally, and
+	// what its documentation points to for "more complex" restores): same content, and a later commit
+	// gets a timestamp above every restored version, now and after a re-open
+	if maxVer > 0 {
+		kdir := root + "/kvloader"
+		kdb, err := Open(c24Opts(kdir, nvk))
+		if err != nil {
+			return "c24-open", err.Error()
+		}
+		ldr := kdb.NewKVLoader(4)
+		br := bytes.NewReader(full)
+		for br.Len() > 0 {
+			var sz uint64
+			if err := binary.Read(br, binary.LittleEndian, &sz); err != nil {
+				break
+			}
+			buf := make([]byte, sz)
+			if _, err := io.ReadFull(br, buf); err != nil {
+				break
+			}
+			list := &pb.KVList{}
+			if err := proto.Unmarshal(buf, list); err != nil {
+				_ = kdb.Close()
+				return "c24-parse", err.Error()
+			}
+			for _, kv := range list.Kv {
+				if err := ldr.Set(kv); err != nil {
+					_ = kdb.Close()
+					return "backup-load-error", "KVLoader.Set: " + err.Error()
+				}
+			}
+		}
+		if err := ldr.Finish(); err != nil {
+			_ = kdb.Close()
+			return "backup-load-error", "KVLoader.Finish: " + err.Error()
+		}
+		kgot, ks := c24Visible(kdb)
+		if ks == "" && c24VisStr(kgot) != c24VisStr(want) {
+			_ = kdb.Close()
+			return "backup-kvloader-state", fmt.Sprintf("restored through KVLoader: a fresh transaction sees {%s}, the source shows {%s}", c24VisStr(kgot), c24VisStr(want))
+		}
+		kerr := kdb.Update(func(txn *Txn) error { return txn.Set([]byte("a"), []byte("new")) })
+		kts := kdb.orc.nextTs() - 1
+		_ = kdb.Close()
+		if kerr != nil {
+			return "backup-write-after", kerr.Error()
+		}
+		kdb, err = Open(c24Opts(kdir, nvk))
+		if err != nil {
+			return "backup-kvloader-reopen", err.Error()
+		}
+		var kv2 string
+		_ = kdb.View(func(txn *Txn) error { kv2 = getStr(txn, "a"); return nil })
+		_ = kdb.Close()
+		if kts <= maxVer || kv2 != "new" {
+			return "backup-kvloader-stale-ts", fmt.Sprintf("after a restore through KVLoader (largest restored version %d) a new commit of a=new got timestamp %d; after a re-open a reads %q", maxVer, kts, kv2)
+		}
 	}
 	e.r.AddExtra("backups", int64(len(chain)+1))
 	return "", ""
